@@ -457,7 +457,10 @@ func booleanEncoder(_ io.Writer, val interface{}, _ *[8]byte) error {
 func booleanDecoder(_ io.Reader, val interface{}, _ *[8]byte,
 	l uint64) error {
 
-	if _, ok := val.(*TrueBoolean); ok && (l == 0 || l == 1) {
+	// The record carries no value: its presence is the information. A
+	// non-zero length would leave value bytes unread, and the stream
+	// decoder would take them for the type of the next record.
+	if _, ok := val.(*TrueBoolean); ok && l == 0 {
 		return nil
 	}
 
